@@ -11,6 +11,7 @@ import json, os, shutil, subprocess, sys, tempfile, concurrent.futures, time
 
 import threading
 RS_FACTS = [None]
+BENIGN = False
 RUST_LOCK = threading.Lock()   # Rust mutants share one cargo target dir: one at a time
 HERE = os.path.dirname(os.path.dirname(os.path.abspath(__file__)))
 REPO = os.environ.get("VERIF_REPO", "/repo")
@@ -45,6 +46,7 @@ def run_one(path):
                    VERIF_WITNESS_TARGET="/tmp/ts-verif-mut-witness-target")
         if c_only and RS_FACTS[0]:
             env["VERIF_RS_FACTS_DIR"] = RS_FACTS[0]     # C-only mutation: Rust facts are those of the real tree
+            env["VERIF_WITNESS_REPO"] = REPO
         if rust:
             RUST_LOCK.acquire()
         t = time.time()
@@ -55,6 +57,13 @@ def run_one(path):
         if os.path.isdir(rep):
             for f in os.listdir(rep):
                 keys.append(json.load(open(os.path.join(rep, f)))["key"])
+        if m.get("benign"):
+            # behaviour-preserving variant: the check must stay silent
+            if r.returncode == 0 and not keys:
+                return name, prop, "SILENT", "no alarm on a behaviour-preserving variant %.1fs" % (time.time() - t)
+            if r.returncode not in (0, 1):
+                return name, prop, "ERROR", out[-600:]
+            return name, prop, "FALSE-ALARM", "keys=%s" % keys[:4]
         exp = m["expect"]
         exps = exp if isinstance(exp, list) else [exp]
         hit = [k for k in keys if any(x in k for x in exps)]
@@ -76,13 +85,15 @@ def main():
     args = sys.argv[1:]
     prop = name = None
     j = 8
+    global BENIGN
     while args:
         a = args.pop(0)
-        if a == "--prop": prop = args.pop(0)
+        if a == "--benign": BENIGN = True
+        elif a == "--prop": prop = args.pop(0)
         elif a == "--name": name = args.pop(0)
         elif a == "-j": j = int(args.pop(0))
     paths = []
-    base = os.path.join(HERE, "mutants")
+    base = os.path.join(HERE, "benign" if BENIGN else "mutants")
     for d in sorted(os.listdir(base)):
         if prop and d != prop: continue
         dd = os.path.join(base, d)
